@@ -3,7 +3,6 @@
 import collections
 import datetime
 import json
-import operator
 import os
 import os.path
 import re
@@ -354,11 +353,17 @@ class StoreBackendMixin(object):
         else:
             to_delete_items = 0
 
+        # Compare and order access times as POSIX timestamps: the naive local
+        # datetimes of the items are neither monotonic nor additive around
+        # daylight saving time changes.
+        def last_access(item):
+            return item.last_access.timestamp()
+
         if age_limit is not None:
-            older_item = min(item.last_access for item in items)
+            older_item = min(last_access(item) for item in items)
             if age_limit.total_seconds() < 0:
                 raise ValueError("age_limit has to be a positive timedelta")
-            deadline = datetime.datetime.now() - age_limit
+            deadline = time.time() - age_limit.total_seconds()
         else:
             deadline = None
 
@@ -371,7 +376,7 @@ class StoreBackendMixin(object):
 
         # We want to delete first the cache items that were accessed a
         # long time ago
-        items.sort(key=operator.attrgetter("last_access"))
+        items.sort(key=last_access)
 
         items_to_delete = []
         size_so_far = 0
@@ -381,7 +386,7 @@ class StoreBackendMixin(object):
             if (
                 (size_so_far >= to_delete_size)
                 and items_so_far >= to_delete_items
-                and (deadline is None or deadline < item.last_access)
+                and (deadline is None or deadline < last_access(item))
             ):
                 break
 
